@@ -465,7 +465,7 @@ fn run_c10(args: &Args, out: &mut Out) {
         c10_verify_case(out, r, &data, &proof, idx, cnt, &format!("mut-{class}"));
     }
     // relabelling: an honest proof for (i, n) presented under every other (i', n') label
-    let rl_max = args.scale(9, 24);
+    let rl_max = args.scale(9, 13);
     for n in 1..=rl_max {
         let leaves: Vec<Vec<u8>> = (0..n).map(|_| rng.bytes_upto(3)).collect();
         let hs: Vec<[u8; 32]> = leaves.iter().map(|l| sha(&[&[0u8], l])).collect();
